@@ -63,7 +63,12 @@ def run_async_reader_case(prog, params):
             f.kernel = (cb, [(kind, a_, (val(b_) if b_ is not None else None)) for kind, a_, b_ in script])
             return f
         for step in range(k):
-            kind = ex.choose(4, 'kind')
+            if step == 0 and params.get('first') is not None:
+                kind = params['first']
+            elif step == 1 and params.get('second') is not None:
+                kind = params['second']
+            else:
+                kind = ex.choose(4, 'kind')
             if kind == 0:
                 n = sizes[ex.choose(len(sizes), 'size')]
                 trace.append('read(%d)' % n)
